@@ -108,6 +108,52 @@ def unit(job, variant, pi, seed, length, fork_every):
                 fail("valid-but-rejected", skill=v.name, events=own[:4])
             elif any(e["tag"] == Tag.REJECT for e in events):
                 out["foreign_rejects"] += 1
+    # the views after going BACK in the history: what the viewer shows must be the state the next command runs on,
+    # i.e. what a fresh engine shows after the surviving commands, and a skill listed valid there must be accepted
+    out["rollback_views"] = 0
+    for _r in range(2):
+        try:
+            eng.get_current_viewer()("validity")           # somebody looked at the views before going back
+            n_hist = len(list(eng.operation_logs()))
+            if n_hist < 3:
+                break
+            idx = rng.randint(0, n_hist - 2)
+            eng.rollback(idx)
+            kept = [ol.command for ol in eng.operation_logs()][1:]
+            got, err = complib.eval_views(eng)
+            fresh = simlib.make_engine(job, variant)
+            for c in kept:
+                fresh.exec(c)
+            want, err2 = complib.eval_views(fresh)
+        except Exception as e:
+            fail("views-after-rollback-raise", error=f"{type(e).__name__}: {e}"[:200])
+            break
+        out["rollback_views"] += 1
+        done = list(kept)
+        if err is not None or err2 is not None:
+            if (err is None) != (err2 is None):
+                fail("view-raises-after-rollback-only", error=str(err or err2)[:200], rollback_to=idx)
+            continue
+        a = simlib.canon({k: [x.model_dump() if hasattr(x, "model_dump") else x for x in v] if isinstance(v, list)
+                          else (v.model_dump() if hasattr(v, "model_dump") else v) for k, v in got.items()})
+        b = simlib.canon({k: [x.model_dump() if hasattr(x, "model_dump") else x for x in v] if isinstance(v, list)
+                          else (v.model_dump() if hasattr(v, "model_dump") else v) for k, v in want.items()})
+        if a != b:
+            bad = [k for k in got if simlib.canon([getattr(x, "model_dump", lambda: x)() for x in got[k]] if isinstance(got[k], list) else getattr(got[k], "model_dump", lambda: got[k])())
+                   != simlib.canon([getattr(x, "model_dump", lambda: x)() for x in want[k]] if isinstance(want[k], list) else getattr(want[k], "model_dump", lambda: want[k])())]
+            fail("views-after-rollback-differ-from-a-fresh-run", rollback_to=idx, views=bad[:4])
+            continue
+        for v in got["validity"]:
+            if v.valid and rng.random() < 0.5:
+                try:
+                    events = complib.forked_use(eng, eng._history.get(idx).playlogs[-1].checkpoint, v.name) \
+                        if eng._history.get(idx).playlogs else None
+                except Exception:
+                    events = None
+                if events is not None:
+                    own = [e for e in events if e["name"] == v.name and e["method"] == "use"]
+                    if any(e["tag"] == Tag.REJECT for e in own):
+                        fail("valid-but-rejected", skill=v.name, via="after rollback", rollback_to=idx, events=own[:3])
     out["skills"] = len(out["skills"])
     out["reqs"], out["expect"], out["mstats"] = complib.harvest_model_requests(cmds, job, variant, per_key=10)
     # boundary states of the cooldown: any remaining cooldown is reachable by choosing elapse amounts, so each
